@@ -425,7 +425,8 @@ theorem apply_add_inv (sp : Spec) (m m' : SMap) (sc : Scope) (name : String) (v 
     ∃ s t o l, sp.get name = some s ∧ s.ty = .obj t ∧
       fromPyValue sp t false v = .ok (some o) ∧ existValue m name s = .objs l ∧
       m' = setValue m name (.objs (l ++ [o])) sc ∧
-      (l ++ [o]).Pairwise (fun a b => a.pyEq b = false) := by
+      (l ++ [o]).Pairwise (fun a b => a.pyEq b = false) ∧
+      checkUnique (l ++ [o]) = .ok (l ++ [o]) := by
   obtain ⟨s, value, hs, hv, h3⟩ := apply_ok_inv sp m m' _ h
   simp only [applyCoerced] at h3
   unfold addValue at h3
@@ -441,7 +442,7 @@ theorem apply_add_inv (sp : Spec) (m m' : SMap) (sc : Scope) (name : String) (v 
     · rename_i l' hchk
       obtain ⟨e1, e2, _⟩ := checkUnique_ok _ _ hchk
       subst e1
-      refine ⟨s, t, o, l, hs, hty, ?_, hex, by simpa using h3.symm, e2⟩
+      refine ⟨s, t, o, l, hs, hty, ?_, hex, by simpa using h3.symm, e2, hchk⟩
       split at hv <;> simp_all
 
 /-- REM removes the elements equal (`__eq__`) to the given object; REM of
